@@ -129,6 +129,20 @@ CHECKS = {
     note='Connections are stepped sequentially (no concurrent goroutines in this check). F20 (final partial getdata never sent) and F17 (tracker '
          'stopped after reconnect) were repaired.',
     technique='TLA+ spec + TLC exhaustive + replay with trace validation'),
+ 'C10': dict(
+    engine='BlockStore',
+    category='fault_enumeration',
+    text='Model: TLC checks CrashSafe on spec/BlockStore.tla (after any prefix of the storage mutations of Save / roll-over / Revert the surviving '
+         'files load to a prefix of the abstract chain). Code: storage mutations are recorded while TLC-simulated scenarios are replayed; for '
+         'EVERY prefix of the mutation log the surviving image is materialised and loaded by fresh real code. Store level (real 1000-header files, '
+         'both back ends, 4 height maps): the loaded chain must be a prefix of the chain before/after the interrupted call, and after growing '
+         'across file boundaries, saving and reloading nothing stale may come back. Node level (ChainSync scenarios: sync, reorg, time-out '
+         'reconnect, clean restart): a new node must load the image, hold a linked chain on one branch and converge to the peer again; and every '
+         'single storage operation is made to fail once, after which memory or a restart must be consistent.',
+    design_ref='DESIGN.md 5.10, 6 (C10)',
+    note='No torn writes (a mutation is atomic); MockStorage behind a recording/fault-injecting wrapper; node-level scenarios live in one block '
+         'file (7-block tree), file-boundary crash points are covered at store level.',
+    technique='TLA+ model invariant (TLC) + exhaustive crash-point / single-fault enumeration over recorded storage mutations of replayed scenarios'),
 }
 
 NOT_YET = {}
